@@ -281,7 +281,8 @@ def ensure_corr(seed, tier, build):
                 else:
                     failc += 1
                     msgs[r['msg']] = msgs.get(r['msg'], 0) + 1
-            if profile == 'dev':
+            if profile in ('dev', 'wrap'):
+                # the wrap profile (deployment arithmetic) runs the same monitors: a wrapped amount is a wrong amount
                 for v in oracles.run_oracles(H):
                     v.update({'run': tag, 'hid': h, 'variant': H.variant, 'profile': profile,
                               'call': H.calls[v['idx']].line if 0 <= v['idx'] < len(H.calls) else ''})
